@@ -28,7 +28,7 @@ def unit_groups(root, tier):
     for p in sorted(glob.glob(os.path.join(VERIF, "drivers/*.cpp"))):
         b = os.path.basename(p)[:-4]          # core_foreach_a -> drv_foreach
         parts = b.split("_")
-        name = "drv_" + parts[1]
+        name = "drv_" + (parts[1] if parts[0] == "core" else "dist" + parts[1])
         g.setdefault(name, []).append(p)
     g["wlcompile"] = [p for p in tests if p.endswith("/worklists-compile.cpp")]
     g["pthreadbarrier"] = [p for p in src if p.endswith("/Barrier_Pthread.cpp")]
